@@ -50,9 +50,12 @@ def run_async(world: World, main: Callable[..., Coroutine[Any, Any, Any]], *args
     det_tasks=True: every task of the loop (including the main one) is a ``SimTask`` (see below)."""
     from sniffio import thread_local
 
+    from .sock import patched_clock
+
     old_name, thread_local.name = thread_local.name, "asyncio"
     try:
-        with asyncio.Runner(loop_factory=lambda: SimEventLoop(world), debug=debug) as runner:
+        # clients/_iter.py measures iterator budgets with time.perf_counter: it must read the world clock too
+        with patched_clock(world), asyncio.Runner(loop_factory=lambda: SimEventLoop(world), debug=debug) as runner:
             loop = runner.get_loop()
             if det_tasks:
                 deterministic_tasks(loop)
